@@ -60,9 +60,13 @@ type Case struct {
 	BadCloser   bool         `json:"bad_closer"` // AddCloser(42)
 	Trigger     string       `json:"trigger"`    // what unblocks waiting runners when nobody returns: close | pcancel
 	Junk        int          `json:"junk,omitempty"` // acrace: size of the lock-holding AddCloser call
+	RealClock   bool         `json:"real_clock,omitempty"` // keep clock.RealClock{}: grace = realGrace of wall time
 }
 
 func (c Case) Key() string { return fmt.Sprintf("%+v", c) }
+
+// realGrace is the grace period of the real-clock family (wall time).
+const realGrace = 40 * time.Millisecond
 
 const (
 	graceUnits = 10 // model clock units; one unit = one fake second
@@ -79,6 +83,7 @@ type Event struct {
 	V    string `json:"v,omitempty"`  // returned value class
 	Errs []int  `json:"errs,omitempty"` // flattened errors.Join list
 	OK   bool   `json:"ok,omitempty"`
+	T    int64  `json:"t,omitempty"` // wall time since the case began (ns)
 	NoDrv bool  `json:"-"` // not part of the model's alphabet (monitors only)
 	Note string `json:"note,omitempty"`
 }
@@ -153,6 +158,7 @@ type world struct {
 	ctxErrs   []string     // closer ctx observations that were not Background-like
 	calls     []*call
 	nextCall  int
+	t0        time.Time
 }
 
 type call struct {
@@ -165,7 +171,7 @@ type call struct {
 }
 
 func newWorld(c Case) *world {
-	w := &world{c: c, armedSeen: map[int]bool{}}
+	w := &world{c: c, armedSeen: map[int]bool{}, t0: time.Now()}
 	w.cv = sync.NewCond(&w.mu)
 	w.rTok = make([]chan struct{}, len(c.Runners)+2)
 	for i := range w.rTok {
@@ -183,6 +189,7 @@ func newWorld(c Case) *world {
 func (w *world) emit(e Event) int {
 	w.mu.Lock()
 	e.Seq = len(w.log)
+	e.T = int64(time.Since(w.t0))
 	w.log = append(w.log, e)
 	w.cv.Broadcast()
 	w.mu.Unlock()
@@ -194,6 +201,7 @@ func (w *world) emit(e Event) int {
 func (w *world) emitDo(e Event, f func()) int {
 	w.mu.Lock()
 	e.Seq = len(w.log)
+	e.T = int64(time.Since(w.t0))
 	w.log = append(w.log, e)
 	f()
 	w.cv.Broadcast()
@@ -501,6 +509,12 @@ func (w *world) registered(k int) {
 }
 
 func (w *world) tick(d int) {
+	if w.c.RealClock {
+		// wall time passes by itself: the log entry only tells the model that up to d units may have
+		// elapsed by now (it is written before the director starts waiting)
+		w.emit(Event{E: "tick", I: d})
+		return
+	}
 	armed := w.clk.HasWaiters()
 	seq := w.emitDo(Event{E: "tick", I: d}, func() { w.clk.Step(time.Duration(d) * time.Second) })
 	w.mu.Lock()
@@ -707,6 +721,9 @@ func (w *world) graceArg() *time.Duration {
 		return nil
 	}
 	g := time.Duration(graceUnits) * time.Second
+	if w.c.RealClock {
+		g = realGrace
+	}
 	return &g
 }
 
@@ -718,7 +735,9 @@ func runRCM(c Case) *outcome {
 		rs[i] = w.runner(i, c.Runners[i])
 	}
 	m := concurrency.NewRunnerCloserManager(sharedLog, w.graceArg(), rs...)
-	m.VerifSetClock(w.clk)
+	if !c.RealClock {
+		m.VerifSetClock(w.clk)
+	}
 	m.WithFatalShutdown(func() { w.emit(Event{E: "fatal"}) })
 	defer w.cleanup(m)
 	acc := map[int]bool{}
@@ -834,7 +853,7 @@ func runRCM(c Case) *outcome {
 			return w.finish(acc)
 		}
 	}
-	if c.Grace != "none" && c.Grace != "" && len(live) > 0 {
+	if c.Grace != "none" && c.Grace != "" && len(live) > 0 && !c.RealClock {
 		deadline := time.Now().Add(waitTO)
 		for !w.clk.HasWaiters() && time.Now().Before(deadline) {
 			time.Sleep(50 * time.Microsecond)
@@ -851,8 +870,13 @@ func runRCM(c Case) *outcome {
 			return w.finish(acc)
 		}
 	}
-	if c.Grace == "generous" && len(live) > 0 {
+	if c.Grace == "generous" && len(live) > 0 && !c.RealClock {
 		w.tick(3)
+	}
+	if c.RealClock && c.Grace != "none" && len(live) > 0 {
+		// wall clock: from here on the grace period may elapse at any moment; what must and must not
+		// happen is judged on the wall-clock stamps by the monitors
+		w.tick(graceUnits)
 	}
 	var tieDone chan struct{}
 	defer func() {
@@ -860,12 +884,17 @@ func runRCM(c Case) *outcome {
 			<-tieDone // the racing tick must not outlive the case
 		}
 	}()
+	if c.RealClock && c.Grace == "none" && len(live) > 0 {
+		time.Sleep(2 * realGrace) // closers outlast what would be the grace period: nothing may fire
+	}
 	for idx, j := range live {
 		last := idx == len(live)-1
 		switch c.Grace {
 		case "exceeded":
 			if idx == c.TickAt {
-				w.tick(graceUnits)
+				if !c.RealClock {
+					w.tick(graceUnits)
+				}
 				if !w.expectEv("fatal-missing: grace exceeded with a closer running but no fatal shutdown", "fatal", 0) {
 					return w.finish(acc)
 				}
@@ -906,7 +935,10 @@ func runRCM(c Case) *outcome {
 	if tieDone != nil {
 		<-tieDone
 	}
-	if c.Grace == "late" || c.Grace == "tie" {
+	if c.RealClock && c.Grace != "none" {
+		time.Sleep(2 * realGrace) // the stopped timer must stay quiet after the end
+	}
+	if (c.Grace == "late" || c.Grace == "tie") && !c.RealClock {
 		w.tick(graceUnits) // after the end: the timer must have been stopped / consumed
 	}
 	for k := 0; k < c.CloseAfter; k++ {
